@@ -63,6 +63,12 @@ func (o *Operations) Update(
 			return []*tar.Header{}, err
 		}
 
+		// Like `Delete` and `Move`, refuse to update what is not in the index: the record could never be indexed, and the
+		// next operation would index its own records at the position of this one
+		if _, err := o.metadata.Metadata.GetHeader(context.Background(), file.Path); err != nil {
+			return []*tar.Header{}, err
+		}
+
 		hdr, err := tar.FileInfoHeader(file.Info, file.Link)
 		if err != nil {
 			// Skip sockets
